@@ -122,6 +122,32 @@ PLANTED = [
      "noise in a twin program"),
 ]
 
+# semantics-preserving edits: every listed check must stay at exit 0 (no false alarm)
+BENIGN = [
+    ("benign-round", ["C09", "C02"], "setigen/voltage/quantization.py", "q_voltages = xp.around(factor * (x - data_mean) + target_mean)",
+     "q_voltages = xp.round(factor * (x - data_mean) + target_mean)"),
+    ("benign-pathlib-open", ["C02", "C04", "C20"], "setigen/voltage/backend.py", "                with open(save_fn, 'wb') as f:",
+     "                with pathlib.Path(save_fn).open('wb') as f:"),
+    ("benign-arange-times", ["C10", "C15", "C02"], "setigen/voltage/data_stream.py",
+     "        self.ts = self.t_start + xp.linspace(0., \n                                             num_samples * self.dt,\n                                             num_samples,\n                                             endpoint=False)",
+     "        self.ts = self.t_start + xp.arange(num_samples) * self.dt"),
+    ("benign-chirp-form", ["C10"], "setigen/voltage/data_stream.py", "0.5 * drift_rate * ts**2", "drift_rate * ts * ts / 2"),
+    ("benign-fft-norm", ["C08", "C02"], "setigen/voltage/polyphase_filterbank.py",
+     "        X_pfb = xp.fft.fft(x, \n                           self.num_branches,\n                           axis=1)[:, 0:self.num_branches//2] / self.num_branches**0.5",
+     "        X_pfb = xp.fft.fft(x, \n                           axis=1)[:, :self.num_branches//2] * (1.0 / xp.sqrt(self.num_branches))"),
+    ("benign-signal-order", ["C06", "C16"], "setigen/frame.py", "            signal = t_profile_tt * f_profile(ff, path_tt) * bp_profile_ff",
+     "            signal = bp_profile_ff * t_profile_tt * f_profile(ff, path_tt)"),
+    ("benign-sorted-listdir", ["C04", "C14"], "setigen/voltage/raw_utils.py", "    filenames = sorted(glob.glob(f'{input_file_stem}.????.raw'))",
+     "    import pathlib\n    _p = pathlib.Path(str(input_file_stem))\n    filenames = sorted(str(q) for q in _p.parent.glob(_p.name + '.????.raw'))"),
+    ("benign-dedrift-vectorised", ["C17"], "setigen/dedrift.py", "        offset = int(np.round(abs(drift_rate) * i * fr.dt / fr.df))",
+     "        offset = int(np.rint(abs(drift_rate) * i * fr.dt / fr.df))"),
+    ("benign-cadence-list-copy", ["C18", "C16"], "setigen/cadence.py", "        self.frames = list()", "        self.frames = []"),
+    ("benign-header-copy", ["C12", "C04"], "setigen/voltage/backend.py", "        header_dict = dict(header_dict)\n", "        header_dict = copy.copy(header_dict)\n"),
+    ("benign-noise-order", ["C11"], "setigen/frame.py", "        set_to_param = (self.noise_mean == self.noise_std == 0)\n        if set_to_param:\n            self.noise_mean, self.noise_std = x_mean, x_std\n        else:\n            self._update_noise_frame_stats()\n\n        return noise\n\n    def add_noise_from_obs",
+     "        if self.noise_mean == 0 and self.noise_std == 0:\n            self.noise_std = x_std\n            self.noise_mean = x_mean\n        else:\n            self._update_noise_frame_stats()\n\n        return noise\n\n    def add_noise_from_obs"),
+    ("benign-save-str-path", ["C03"], "setigen/frame.py", "        self.waterfall.write_to_fil(filename)", "        self.waterfall.write_to_fil(str(filename))"),
+]
+
 # fix commit -> property whose check must re-find the defect when the fix is reverted
 REVERTS = [
     ("bc06074", "C08"), ("4af9c5b", "C09"), ("25da695", "C15"), ("1391308", "C04"), ("f03be70", "C04"), ("e68e37a", "C04"),
@@ -176,6 +202,38 @@ def main(argv):
             budget = float(argv[i + 1])
     results = []
     jobs = []
+    if "--benign" in argv:
+        do_planted = do_reverts = False
+        for mid, props, rel, old_, new_ in BENIGN:
+            if only and mid not in only and not (set(props) & only):
+                continue
+            d = scratch_copy()
+            try:
+                pth = os.path.join(d, rel)
+                src = open(pth).read()
+                if old_ not in src:
+                    print(mid, "PATCH-DOES-NOT-APPLY", flush=True)
+                    results.append({"id": mid, "property": ",".join(props), "status": "PATCH-DOES-NOT-APPLY"})
+                    continue
+                open(pth, "w").write(src.replace(old_, new_, 1))
+                outcomes = {}
+                for pr in props:
+                    rc, lines, wall, tail = run_check(pr, d, budget)
+                    outcomes[pr] = rc
+                    for l in lines:
+                        if l.startswith("VIOLATION"):
+                            try:
+                                os.remove(l.split("replay=")[-1].strip())
+                            except OSError:
+                                pass
+                    if rc != 0:
+                        print("   ", pr, [l for l in lines][:3], flush=True)
+                ok = all(v == 0 for v in outcomes.values())
+                results.append({"id": mid, "property": ",".join(props), "status": "NO-ALARM" if ok else "FALSE-ALARM", "exit": outcomes,
+                                "needs": "semantics-preserving edit"})
+                print(mid, "NO-ALARM" if ok else "FALSE-ALARM", outcomes, flush=True)
+            finally:
+                shutil.rmtree(d, ignore_errors=True)
     if do_planted:
         for m in PLANTED:
             if only and m[1] not in only and m[0] not in only:
@@ -232,7 +290,7 @@ def main(argv):
         finally:
             shutil.rmtree(d, ignore_errors=True)
     os.makedirs(os.path.join(HERE, "sensitivity"), exist_ok=True)
-    out = os.path.join(HERE, "sensitivity", "results.json")
+    out = os.path.join(HERE, "sensitivity", "benign.json" if "--benign" in argv else "results.json")
     prev = []
     if os.path.exists(out) and only:
         prev = [r for r in json.load(open(out)) if r["id"] not in {x["id"] for x in results}]
